@@ -1,13 +1,14 @@
 (* Property C02 — Intersects is exact and symmetric.  PARTIAL: the statements
    below are kernel-checked for every input.  Ring x segment and ring x line
-   string (= polygon without holes x line string) are proved exact as point sets
-   through a discrete Jordan-curve argument (Jordan.v, JordanQ.v); exactness of
-   ring x ring and of pairs involving holes is NOT proved and is decided by the
+   string (= polygon without holes x line string) and ring x ring (= polygon x
+   polygon without holes) are proved exact as point sets, hence symmetric,
+   through a discrete Jordan-curve argument (Jordan.v, JordanQ.v, JordanRing.v);
+   exactness of pairs involving holes is NOT proved and is decided by the
    differential correspondence against the executable oracle PairSpec.meets_x on
    every run. *)
 From Coq Require Import QArith.
 From GJ Require Import Base Kernel KernelSpec KernelProofs IntersectsProofs IntersectsQ Series SeriesSpec
-  Ring RingSpec PipProofs PairProofs Jordan JordanQ.
+  Ring RingSpec PipProofs PairProofs Jordan JordanQ JordanRing.
 Open Scope Z_scope.
 
 (* segments: true exactly when the closed segments share a point; symmetric *)
@@ -101,6 +102,47 @@ Theorem C02_ring_line_pointset : forall ps qs,
   exists sg, In sg (path_segs qs) /\ shares_point ps (fst sg) (snd sg).
 Proof. exact ring_intersects_line_pointset. Qed.
 
+(* ringIntersectsRing = Poly.IntersectsPoly for polygons without holes: true exactly when the two
+   closed rings share a rational point (P, k) = P / k — a statement symmetric in the operands.
+   Any closed vertex sequences: the ring chosen as "the ring" is the one with the larger box, and
+   nesting the other way is excluded by the boxes (JordanRing.nested_bigger_box), boundaries
+   lying outside each other by a descent on the edges met (no_common_interior_point). *)
+Theorem C02_ring_ring_pointset : forall ps qs,
+  ring_intersects_ring (RS {| closed := true; pts := ps |}) (RS {| closed := true; pts := qs |}) true = true <->
+  (3 <= length ps)%nat /\ (3 <= length qs)%nat /\
+  exists k P, 0 < k /\ in_ringb (ring_edges (map (sc k) ps)) P = true /\
+                       in_ringb (ring_edges (map (sc k) qs)) P = true.
+Proof. exact ring_intersects_ring_pointset. Qed.
+Theorem C02_ring_ring_symmetric : forall ps qs,
+  ring_intersects_ring (RS {| closed := true; pts := ps |}) (RS {| closed := true; pts := qs |}) true =
+  ring_intersects_ring (RS {| closed := true; pts := qs |}) (RS {| closed := true; pts := ps |}) true.
+Proof. exact ring_intersects_ring_sym. Qed.
+Theorem C02_polygons_without_holes : forall e1 e2,
+  poly_intersects_poly (Pg e1 []) (Pg e2 []) = true <->
+  (3 <= length e1)%nat /\ (3 <= length e2)%nat /\ rings_share_point e1 e2.
+Proof. exact poly_intersects_poly_noholes. Qed.
+Theorem C02_polygons_without_holes_symmetric : forall e1 e2,
+  poly_intersects_poly (Pg e1 []) (Pg e2 []) = poly_intersects_poly (Pg e2 []) (Pg e1 []).
+Proof. exact poly_intersects_poly_noholes_sym. Qed.
+Theorem C02_polygon_without_holes_line : forall e qs,
+  poly_intersects_line (Pg e []) (Lr qs) = true <->
+  (3 <= length e)%nat /\ (2 <= length qs)%nat /\
+  exists sg, In sg (path_segs qs) /\ shares_point e (fst sg) (snd sg).
+Proof. exact poly_intersects_line_noholes. Qed.
+
+(* non-vacuity of the ring x ring statement: a small square nested in a big one (no edges meet;
+   either operand order), two overlapping squares, two disjoint squares *)
+Example C02_ring_ring_examples :
+  let big := [(0,0); (8,0); (8,8); (0,8); (0,0)] in
+  let small := [(3,3); (5,3); (5,5); (3,5); (3,3)] in
+  let shifted := [(6,6); (12,6); (12,12); (6,12); (6,6)] in
+  let far := [(20,20); (22,20); (22,22); (20,22); (20,20)] in
+  let ri a b := ring_intersects_ring (RS {| closed := true; pts := a |}) (RS {| closed := true; pts := b |}) true in
+  ri big small = true /\ ri small big = true /\ ri big shifted = true /\ ri shifted big = true /\
+  ri big far = false /\ ri small shifted = false /\
+  existsb (fun e => existsb (fun f => seg_meetb e f) (ring_edges small)) (ring_edges big) = false.
+Proof. vm_compute. repeat split. Qed.
+
 (* non-vacuity: a square, a segment through it with both ends outside (two edges
    meet it), and a rational shared point that is not a grid point of the unscaled plane *)
 Example C02_two_edges_example :
@@ -128,6 +170,11 @@ Print Assumptions C02_ring_segment_exact.
 Print Assumptions C02_ring_segment_pointset.
 Print Assumptions C02_rational_membership_well_defined.
 Print Assumptions C02_ring_line_pointset.
+Print Assumptions C02_ring_ring_pointset.
+Print Assumptions C02_ring_ring_symmetric.
+Print Assumptions C02_polygons_without_holes.
+Print Assumptions C02_polygons_without_holes_symmetric.
+Print Assumptions C02_polygon_without_holes_line.
 Print Assumptions C02_rect_rect.
 Print Assumptions C02_line_line.
 Print Assumptions C02_line_line_symmetric.
